@@ -201,6 +201,17 @@ claim("C15", "exploration",
       "self-composition spec (SelfComp.tla, ObservationalDeterminism) checked by TLC over outputs recorded from "
       "the real generators in enumerated configurations")
 
+claim("C03", "translation_validation",
+      "TLC-generated programs of the 'fortran' profile are emitted by the real Fortran generator, compiled with "
+      "gfortran with a generated driver that prints every field of the state type after each run() call, and stepped "
+      "through the real interpreter; TLC validates both traces against Stepper.tla in slot mode (persistent "
+      "variables, return slots, next phase after every call; compile failures and run-time errors are rejections)",
+      "trusted: driver generation and output parsing; exact (integer-valued) arithmetic only; kinds of persistent "
+      "inputs are fixed by assignments in a second phase (methods whose inputs have no inferable kind are outside the "
+      "supported subset)",
+      "translation validation: compiled output of the real generator vs the executable TLA+ reference (Stepper.tla, "
+      "slot mode) judged by TLC; programs are TLC-generated behaviours of ProgGen.tla")
+
 NOT_YET = "check not built yet (work in progress, see DESIGN.md section 11)"
 NOT_APPLICABLE = {}
 
